@@ -307,6 +307,7 @@ def obligations(tier: str) -> list[dict]:
         for b in (2, 3):
             ob(GR, 4, 3, G, [b, b], T, 'gates')
         ob(['quick'], 4, 4, [2], [2, 3], T, 'twoq')
+        ob(GR, 4, 4, [2], [3, 3], T, 'twoq')     # smallest family with mutually dependent regions
         ob(QS, 3, 2, ALLK, [2, 4], T, 'allkinds')
         ob(['quick', 'scan'], 3, 3, G + [4, 5], [4, 4], T, 'wideblock')
         ob(GR, 3, 2, G, [4, 4], T, 'wideblock')
